@@ -48,7 +48,7 @@ def _encoded_size_forward(facts, S, ms, mt):
     ctx = sym.Ctx(ev, f)
     if f['params']:
         ctx.env[f['params'][0]['v']] = ('self',)
-    v, t = ev.ev(f['thir'], ctx)
+    v, t = sym.fn_value(ev, f, ctx)
     sv = strip(v)
     if not (isinstance(sv, tuple) and sv[0] == 'encoded_size'):
         return 'its value is %s, not the encoded_size of the forwarded value' % sym.vstr(v)[:120]
@@ -131,7 +131,7 @@ def check_defaults(out, facts):
         ev = sym.Evaluator(facts)
         ctx = sym.Ctx(ev, d)
         ctx.env[d['params'][0]['v']] = ('self',)
-        v, t = ev.ev(d['thir'], ctx)
+        v, t = sym.fn_value(ev, d, ctx)
         sv = strip(v)
         # the counter is the tracker's only field, read by name or by destructuring (field index 0)
         ok = isinstance(sv, tuple) and sv[0] == 'field' and (sv[3] == 'written' or sv[2] == 0) and strip(sv[1])[0] == 'sink'
